@@ -5,11 +5,12 @@ CONSTANTS
   NW = 2
   SELS = {1}
   HOLD = TRUE
-  VALS = 3
+  VALS = 2
+  COVER = FALSE
   LMIN = 1
-  LMAX = 1
+  LMAX = 2
   STALL = 0
-  WMAX = 8
-  BUG = "none"
+  WMAX = 10
+  BUG = "merge_occupied"
 INVARIANTS NoClauseBroken MemAllowed AckWithinBound OneOutstanding
 CHECK_DEADLOCK TRUE
